@@ -130,4 +130,4 @@ def run(ctx):
     fx = ctx.fixture
     fcg = CallGraph(fx)
     fs, _ = growth.growth_sites(fx, fcg, [f.path for f in fx.fn_list if 'ctl_grow' in f.path])
-    ctx.check(R, len([s for s in fs if s[4] == 'state']) >= 2, 'control-fixture', 'the growth scan misses the fixture\'s growing map/log: checker broken', kind='undecided')
+    ctx.check(R, len([s for s in fs if s[4] == 'state']) >= 2, 'control-fixture', 'the growth scan misses the fixture\'s growing map/log: checker broken', kind='violation')
